@@ -173,6 +173,13 @@ def run(chk, tier, seed):
                 pad = (want - len(base)) % 512
                 variants.append(("mod512=%d" % want, gz_bytes(data, 6, fname=b"p" + b"q" * pad)))
             variants.append(("two-members", gz_bytes(data, 6, members=2)))
+            # ... and with the first member ending exactly where a 512-byte input buffer ends (nothing of the second member has
+            # been read when the first one's end is seen)
+            half = len(data) // 2
+            m1 = gz_bytes(data[:half], 6, fname=b"p")
+            m1 = gz_bytes(data[:half], 6, fname=b"p" + b"q" * ((0 - len(m1)) % 512))
+            if len(m1) % 512 == 0 and (not quick or tag.startswith(("dfs-", "mmb", "hfe", "opus", "wdfs"))):
+                variants.append(("two-members-aligned", m1 + gz_bytes(data[half:], 6)))
             for vn, gzdata in variants:
                 jobs.append((tag, path, cmds, vn, gzdata))
 
@@ -266,7 +273,7 @@ def run(chk, tier, seed):
         for ln in sorted(tr.verdicts[-1]["bad"]):
             e = events[ln - 1]
             if e["e"] == "same":
-                kind = "two-members" if e["variant"] == "two-members" else ("hint" if e["tag"].startswith("hint") else "other")
+                kind = "two-members" if e["variant"].startswith("two-members") else ("hint" if e["tag"].startswith("hint") else "other")
                 chk.violation("same:%s" % kind, "image %s, gzip variant %s: `%s` differs between X and X.gz (rc %s vs %s, clean=%s) %s" %
                               (e["tag"], e["variant"], " ".join(e["cmd"]), e["rc"], e["rc_gz"], e["clean"], e["err_gz"][:150]), dict(event=e))
             else:
